@@ -396,7 +396,13 @@ impl StringGenerator {
         for (page, font) in buf.font_iter() {
             let mut to_page = *page;
             for (i, ansi_font) in ansi_fonts.iter().enumerate() {
-                if ansi_font.get_checksum() == font.get_checksum() {
+                // compare the glyphs themselves: the cached checksum of a font edited in place is stale
+                if ansi_font.size == font.size
+                    && ansi_font.length == font.length
+                    && (0..font.length as u32)
+                        .filter_map(char::from_u32)
+                        .all(|ch| ansi_font.get_glyph(ch).map(|g| &g.data) == font.get_glyph(ch).map(|g| &g.data))
+                {
                     to_page = i;
                     break;
                 }
